@@ -42,4 +42,456 @@ theorem NrtOk.storage_some {P n a im} (h : NrtOk P n) (hl : imLookup n.invMap a 
   | none => have := h.st_none hs; simp [this, imLookup] at hl
   | some st => exact ⟨st, rfl⟩
 
+/-- how `unMap a k` changes `inv_map` -/
+structure InvUpd (old new : List (Nat × Imap)) (a : Nat) (k : Bool) : Prop where
+  other : ∀ b, b ≠ a → imLookup new b = imLookup old b
+  same : ∀ im', imLookup new a = some im' →
+    ∃ im, imLookup old a = some im ∧ im'.slot = im.slot ∧ sel k im' = none ∧ sel (!k) im' = sel (!k) im
+  gone : imLookup new a = none → ∀ im, imLookup old a = some im → sel (!k) im = none
+
+def unMapInv (m : List (Nat × Imap)) (a : Nat) (k : Bool) (im : Imap) : List (Nat × Imap) :=
+  let im' : Imap := if k then { im with coarse := none } else { im with fine := none }
+  if im'.coarse = none ∧ im'.fine = none then imErase m a else imSet m a im'
+
+theorem invUpd_step (m : List (Nat × Imap)) (a : Nat) (k : Bool) (im : Imap)
+    (hl : imLookup m a = some im) : InvUpd m (unMapInv m a k im) a k := by
+  cases k
+  · by_cases hc : im.coarse = none
+    · have : unMapInv m a false im = imErase m a := by simp [unMapInv, hc]
+      rw [this]
+      constructor
+      · intro b hb; simp [imLookup_imErase, hb]
+      · intro im'; simp [imLookup_imErase]
+      · intro _ im2 h2; rw [hl] at h2; cases h2; simp [sel, hc]
+    · have : unMapInv m a false im = imSet m a { im with fine := none } := by simp [unMapInv, hc]
+      rw [this]
+      constructor
+      · intro b hb; simp [imLookup_imSet, hb]
+      · intro im'; simp only [imLookup_imSet, ↓reduceIte, Option.some.injEq]
+        rintro rfl; exact ⟨im, hl, rfl, rfl, rfl⟩
+      · simp [imLookup_imSet]
+  · by_cases hc : im.fine = none
+    · have : unMapInv m a true im = imErase m a := by simp [unMapInv, hc]
+      rw [this]
+      constructor
+      · intro b hb; simp [imLookup_imErase, hb]
+      · intro im'; simp [imLookup_imErase]
+      · intro _ im2 h2; rw [hl] at h2; cases h2; simp [sel, hc]
+    · have : unMapInv m a true im = imSet m a { im with coarse := none } := by simp [unMapInv, hc]
+      rw [this]
+      constructor
+      · intro b hb; simp [imLookup_imSet, hb]
+      · intro im'; simp only [imLookup_imSet, ↓reduceIte, Option.some.injEq]
+        rintro rfl; exact ⟨im, hl, rfl, rfl, rfl⟩
+      · simp [imLookup_imSet]
+
+/-- `unMap` under the invariant: nothing bound → only `inv_map` bookkeeping; otherwise the
+    bound controller's single mapping entry is removed and a `midi-bind` is sent. -/
+theorem unMap_eq {P n} (h : NrtOk P n) (a : Nat) (k : Bool) :
+    (imLookup n.invMap a = none ∧ n.unMap a k = some (n, [])) ∨
+    (∃ im, imLookup n.invMap a = some im ∧ sel k im = none ∧
+        n.unMap a k = some ({ n with invMap := unMapInv n.invMap a k im }, [])) ∨
+    (∃ im c st, imLookup n.invMap a = some im ∧ sel k im = some c ∧ n.storage = some st ∧
+        c ∈ ids st.mapping ∧
+        n.unMap a k = some
+          ({ n with invMap := unMapInv n.invMap a k im,
+                    storage := some ⟨st.mapping.filter (fun e => e.id != c), st.callbacks,
+                                     List.replicate st.values.length 0⟩ },
+           [.bind ⟨st.mapping.filter (fun e => e.id != c), st.callbacks,
+                   List.replicate st.values.length 0⟩ none])) := by
+  cases hl : imLookup n.invMap a with
+  | none => left; simp [NRT.unMap, hl]
+  | some im =>
+    right
+    cases hs : sel k im with
+    | none =>
+      left
+      refine ⟨im, rfl, hs, ?_⟩
+      cases k <;> simp_all [NRT.unMap, sel, unMapInv]
+    | some c =>
+      right
+      obtain ⟨st, hst⟩ := h.storage_some hl
+      have hmem := h.inv_sel a im k c hl hs
+      simp only [NRT.mapping, hst] at hmem
+      have hc : c ∈ ids st.mapping := mem_ids.mpr ⟨_, hmem, rfl⟩
+      have hk := killMap_unique (h.stok st hst).nodup hc
+      refine ⟨im, c, st, rfl, hs, hst, hc, ?_⟩
+      cases k <;> simp_all [NRT.unMap, sel, unMapInv, Storage.clone]
+
+theorem sel_cases (k k' : Bool) : k' = k ∨ k' = !k := by cases k <;> cases k' <;> simp
+
+theorem nrtOk_unmap_nokill {P n a k im inv'} (h : NrtOk P n)
+    (hl : imLookup n.invMap a = some im) (hs : sel k im = none)
+    (hu : InvUpd n.invMap inv' a k) : NrtOk P { n with invMap := inv' } := by
+  constructor
+  · intro hn; have := h.st_none hn; simp [this, imLookup] at hl
+  · exact h.stok
+  · intro b im' hb
+    by_cases hba : b = a
+    · subst hba
+      obtain ⟨im0, h0, hslot, _, _⟩ := hu.same im' hb
+      rw [hslot]; exact h.inv_slot b im0 h0
+    · rw [hu.other b hba] at hb; exact h.inv_slot b im' hb
+  · intro b im' k' c hb hsel
+    by_cases hba : b = a
+    · subst hba
+      obtain ⟨im0, h0, hslot, hk, hnk⟩ := hu.same im' hb
+      rw [hl] at h0; cases h0
+      rcases sel_cases k k' with rfl | rfl
+      · rw [hk] at hsel; cases hsel
+      · rw [hnk] at hsel; rw [hslot]; exact h.inv_sel b im (!k) c hl hsel
+    · rw [hu.other b hba] at hb; exact h.inv_sel b im' k' c hb hsel
+  · intro e he
+    obtain ⟨cb, im0, hcb, hl0, hslot, hsel⟩ := h.map_inv e he
+    by_cases hba : cb.addr = a
+    · rw [hba, hl] at hl0; cases hl0
+      rcases sel_cases k e.coarse with hk | hk
+      · rw [hk, hs] at hsel; cases hsel
+      · cases hn : imLookup inv' a with
+        | none => have := hu.gone hn im hl; rw [hk, this] at hsel; cases hsel
+        | some im' =>
+          obtain ⟨im0, h0, hslot', _, hnk⟩ := hu.same im' hn
+          rw [hl] at h0; cases h0
+          exact ⟨cb, im', hcb, by rw [hba]; exact hn, by rw [hslot', hslot], by rw [hk, hnk, ← hk]; exact hsel⟩
+    · exact ⟨cb, im0, hcb, by rw [hu.other _ hba]; exact hl0, hslot, hsel⟩
+  · exact h.q_nodup
+  · intro b k' im' hq hb
+    by_cases hba : b = a
+    · subst hba
+      obtain ⟨im0, h0, _, hk, hnk⟩ := hu.same im' hb
+      rcases sel_cases k k' with rfl | rfl
+      · exact hk
+      · rw [hnk]; exact h.q_unbound b (!k) im0 hq h0
+    · rw [hu.other b hba] at hb; exact h.q_unbound b k' im' hq hb
+  · exact h.q_ports
+
+theorem stOk_filter {st : Storage} (h : StOk st) (c : Nat) :
+    StOk ⟨st.mapping.filter (fun e => e.id != c), st.callbacks, List.replicate st.values.length 0⟩ := by
+  constructor
+  · intro e he; exact h.slots e (List.mem_filter.mp he).1
+  · simp [h.vals]
+  · exact List.Nodup.sublist (ids_filter_sublist _ _) h.nodup
+
+theorem nrtOk_unmap_kill {P n a k im c st inv'} (h : NrtOk P n)
+    (hl : imLookup n.invMap a = some im) (hs : sel k im = some c) (hst : n.storage = some st)
+    (hu : InvUpd n.invMap inv' a k) :
+    NrtOk P { n with invMap := inv',
+                     storage := some ⟨st.mapping.filter (fun e => e.id != c), st.callbacks,
+                                      List.replicate st.values.length 0⟩ } := by
+  have hok := h.stok st hst
+  have hent : (⟨c, k, im.slot⟩ : MapEnt) ∈ st.mapping := by
+    have := h.inv_sel a im k c hl hs; simpa [NRT.mapping, hst] using this
+  have huniq : ∀ e ∈ st.mapping, e.id = c → e = ⟨c, k, im.slot⟩ :=
+    fun e he hc => eq_of_mem_nodup hok.nodup he hent hc
+  have hcbs : n.callbacks = st.callbacks := by simp [NRT.callbacks, hst]
+  have hmp : n.mapping = st.mapping := by simp [NRT.mapping, hst]
+  obtain ⟨cba, hcba, hcbaddr⟩ := h.inv_slot a im hl
+  constructor
+  · intro hn; simp at hn
+  · intro st' hst'; simp at hst'; subst hst'; exact stOk_filter hok c
+  · intro b im' hb
+    simp only [NRT.callbacks]
+    rw [← hcbs]
+    by_cases hba : b = a
+    · subst hba
+      obtain ⟨im0, h0, hslot, _, _⟩ := hu.same im' hb
+      rw [hslot]; exact h.inv_slot b im0 h0
+    · rw [hu.other b hba] at hb; exact h.inv_slot b im' hb
+  · intro b im' k' c' hb hsel
+    simp only [NRT.mapping, List.mem_filter, bne_iff_ne, ne_eq]
+    by_cases hba : b = a
+    · subst hba
+      obtain ⟨im0, h0, hslot, hk, hnk⟩ := hu.same im' hb
+      rw [hl] at h0; cases h0
+      rcases sel_cases k k' with rfl | rfl
+      · rw [hk] at hsel; cases hsel
+      · rw [hnk] at hsel
+        have hm := h.inv_sel b im (!k) c' hl hsel
+        rw [hmp] at hm
+        refine ⟨by rw [hslot]; exact hm, ?_⟩
+        intro hcc; subst hcc
+        have := huniq _ hm rfl
+        simp at this
+    · rw [hu.other b hba] at hb
+      have hm := h.inv_sel b im' k' c' hb hsel
+      rw [hmp] at hm
+      refine ⟨hm, ?_⟩
+      intro hcc; subst hcc
+      have he := huniq _ hm rfl
+      simp only [MapEnt.mk.injEq, true_and] at he
+      obtain ⟨cbb, hcbb, hcbbaddr⟩ := h.inv_slot b im' hb
+      rw [he.2, hcba] at hcbb; cases hcbb
+      exact hba (hcbbaddr.symm.trans hcbaddr)
+  · intro e he
+    simp only [NRT.mapping, List.mem_filter, bne_iff_ne, ne_eq] at he
+    simp only [NRT.callbacks]; rw [← hcbs]
+    obtain ⟨cb, im0, hcb, hl0, hslot, hsel⟩ := h.map_inv e (by rw [hmp]; exact he.1)
+    by_cases hba : cb.addr = a
+    · rw [hba, hl] at hl0; cases hl0
+      rcases sel_cases k e.coarse with hk | hk
+      · rw [hk, hs] at hsel; cases hsel; exact absurd rfl he.2
+      · cases hn : imLookup inv' a with
+        | none => have := hu.gone hn im hl; rw [hk, this] at hsel; cases hsel
+        | some im' =>
+          obtain ⟨im0, h0, hslot', _, hnk⟩ := hu.same im' hn
+          rw [hl] at h0; cases h0
+          exact ⟨cb, im', hcb, by rw [hba]; exact hn, by rw [hslot', hslot], by rw [hk, hnk, ← hk]; exact hsel⟩
+    · exact ⟨cb, im0, hcb, by rw [hu.other _ hba]; exact hl0, hslot, hsel⟩
+  · exact h.q_nodup
+  · intro b k' im' hq hb
+    by_cases hba : b = a
+    · subst hba
+      obtain ⟨im0, h0, _, hk, hnk⟩ := hu.same im' hb
+      rcases sel_cases k k' with rfl | rfl
+      · exact hk
+      · rw [hnk]; exact h.q_unbound b (!k) im0 hq h0
+    · rw [hu.other b hba] at hb; exact h.q_unbound b k' im' hq hb
+  · exact h.q_ports
+
+/-- Generic post-state of a successful learn step (`useFreeID`): one mapping entry is
+    appended, the callback vector is extended at most at its end, `inv_map` changes only
+    at `a`. -/
+theorem nrtOk_learn {P : List PortSpec} {n : NRT} {a : Nat} {k : Bool} {q : List (Nat × Bool)}
+    {id slot : Nat} {inv' : List (Nat × Imap)} {cbs' extra : List Cb} {im' : Imap} {cb0 : Cb} {vals : List Nat}
+    (h : NrtOk P n) (hq : n.learnQ = (a, k) :: q) (hid : id ∉ ids n.mapping)
+    (hcbs : cbs' = n.callbacks ++ extra) (hcb0 : cbs'[slot]? = some cb0) (haddr : cb0.addr = a)
+    (hvals : vals.length = cbs'.length)
+    (hother : ∀ b, b ≠ a → imLookup inv' b = imLookup n.invMap b)
+    (hnew : imLookup inv' a = some im') (hslot : im'.slot = slot) (hk : sel k im' = some id)
+    (hold : ∀ im, imLookup n.invMap a = some im → sel (!k) im' = sel (!k) im ∧ im.slot = slot)
+    (hfresh : imLookup n.invMap a = none → sel (!k) im' = none) :
+    NrtOk P { learnQ := q, invMap := inv',
+              storage := some ⟨n.mapping ++ [⟨id, k, slot⟩], cbs', vals⟩ } := by
+  have hqn := h.q_nodup; rw [hq] at hqn
+  have hpre : ∀ (i : Nat) (cb : Cb), n.callbacks[i]? = some cb → cbs'[i]? = some cb := by
+    intro i cb hi; rw [hcbs, List.getElem?_append_left]; exact hi
+    exact (List.getElem?_eq_some_iff.mp hi).1
+  have hslotlt : slot < cbs'.length := (List.getElem?_eq_some_iff.mp hcb0).1
+  have hksel : ∀ im, imLookup n.invMap a = some im → sel k im = none :=
+    fun im hl => h.q_unbound a k im (by rw [hq]; exact List.mem_cons_self) hl
+  constructor
+  · intro hn; simp at hn
+  · intro st hst; simp at hst; subst hst
+    constructor
+    · intro e he
+      simp only [List.mem_append, List.mem_singleton] at he
+      rcases he with he | rfl
+      · obtain ⟨cb, _, hcb, _⟩ := h.map_inv e he
+        exact (List.getElem?_eq_some_iff.mp (hpre _ _ hcb)).1
+      · exact hslotlt
+    · exact hvals
+    · simp only [ids_append, ids_cons, ids_nil]
+      rw [List.nodup_append]
+      refine ⟨?_, by simp, ?_⟩
+      · cases hs : n.storage with
+        | none => simp [NRT.mapping, hs]
+        | some st => simpa [NRT.mapping, hs] using (h.stok st hs).nodup
+      · intro x hx y hy; simp at hy; subst hy; intro hxy; subst hxy; exact hid hx
+  · intro b im2 hb
+    simp only [NRT.callbacks]
+    by_cases hba : b = a
+    · subst hba; rw [hnew] at hb; cases hb; rw [hslot]; exact ⟨cb0, hcb0, haddr⟩
+    · rw [hother b hba] at hb
+      obtain ⟨cb, hcb, hcba⟩ := h.inv_slot b im2 hb
+      exact ⟨cb, hpre _ _ hcb, hcba⟩
+  · intro b im2 k' c hb hsel
+    simp only [NRT.mapping, List.mem_append, List.mem_singleton]
+    by_cases hba : b = a
+    · subst hba; rw [hnew] at hb; cases hb
+      rcases sel_cases k k' with rfl | rfl
+      · rw [hk] at hsel; cases hsel; right; rw [hslot]
+      · left
+        cases hl : imLookup n.invMap b with
+        | none => rw [hfresh hl] at hsel; cases hsel
+        | some im =>
+          obtain ⟨h1, h2⟩ := hold im hl
+          rw [h1] at hsel; rw [hslot, ← h2]; exact h.inv_sel b im (!k) c hl hsel
+    · rw [hother b hba] at hb; left; exact h.inv_sel b im2 k' c hb hsel
+  · intro e he
+    simp only [NRT.mapping, List.mem_append, List.mem_singleton] at he
+    simp only [NRT.callbacks]
+    rcases he with he | rfl
+    · obtain ⟨cb, im, hcb, hl, hs1, hs2⟩ := h.map_inv e he
+      refine ⟨cb, ?_⟩
+      by_cases hba : cb.addr = a
+      · rw [hba] at hl
+        obtain ⟨h1, h2⟩ := hold im hl
+        refine ⟨im', hpre _ _ hcb, by rw [hba]; exact hnew, by rw [hslot, ← h2, hs1], ?_⟩
+        rcases sel_cases k e.coarse with hk' | hk'
+        · rw [hk', hksel im hl] at hs2; cases hs2
+        · rw [hk', h1, ← hk']; exact hs2
+      · exact ⟨im, hpre _ _ hcb, by rw [hother _ hba]; exact hl, hs1, hs2⟩
+    · exact ⟨cb0, im', hcb0, by rw [haddr]; exact hnew, hslot, hk⟩
+  · exact (List.nodup_cons.mp hqn).2
+  · intro b k' im2 hbq hb
+    have hbq' : (b, k') ∈ n.learnQ := by rw [hq]; exact List.mem_cons_of_mem _ hbq
+    by_cases hba : b = a
+    · subst hba; rw [hnew] at hb; cases hb
+      rcases sel_cases k k' with rfl | rfl
+      · exact absurd hbq (List.nodup_cons.mp hqn).1
+      · cases hl : imLookup n.invMap b with
+        | none => exact hfresh hl
+        | some im => rw [(hold im hl).1]; exact h.q_unbound b (!k) im hbq' hl
+    · rw [hother b hba] at hb; exact h.q_unbound b k' im2 hbq' hb
+  · intro b k' hbq; exact h.q_ports b k' (by rw [hq]; exact List.mem_cons_of_mem _ hbq)
+
+def learnIm (k : Bool) (im : Imap) (id : Nat) : Imap :=
+  if k then { im with coarse := some id } else { im with fine := some id }
+
+theorem useFreeID_eq {P n a k q} (id : Nat) (h : NrtOk P n) (hq : n.learnQ = (a, k) :: q) :
+    ∃ p, P[a]? = some p ∧
+    ((imLookup n.invMap a = none ∧
+      NRT.useFreeID P n id = some
+        ({ learnQ := q,
+           invMap := imSet (imSet n.invMap a ⟨n.callbacks.length, none, none⟩) a
+                       (learnIm k ⟨n.callbacks.length, none, none⟩ id),
+           storage := some ⟨n.mapping ++ [⟨id, k, n.callbacks.length⟩],
+                            n.callbacks ++ [⟨a, p.isInt, p.min8, p.max8⟩],
+                            List.replicate (n.callbacks.length + 1) 0⟩ },
+         [.bind ⟨n.mapping ++ [⟨id, k, n.callbacks.length⟩],
+                 n.callbacks ++ [⟨a, p.isInt, p.min8, p.max8⟩],
+                 List.replicate (n.callbacks.length + 1) 0⟩ (some id)])) ∨
+     (∃ im st, imLookup n.invMap a = some im ∧ n.storage = some st ∧
+      NRT.useFreeID P n id = some
+        ({ learnQ := q, invMap := imSet n.invMap a (learnIm k im id),
+           storage := some ⟨st.mapping ++ [⟨id, k, im.slot⟩], st.callbacks,
+                            List.replicate st.values.length 0⟩ },
+         [.bind ⟨st.mapping ++ [⟨id, k, im.slot⟩], st.callbacks,
+                 List.replicate st.values.length 0⟩ (some id)]))) := by
+  have ha : a < P.length := h.q_ports a k (by rw [hq]; exact List.mem_cons_self)
+  refine ⟨P[a], by simp [ha], ?_⟩
+  cases hl : imLookup n.invMap a with
+  | none =>
+    left
+    refine ⟨rfl, ?_⟩
+    cases hs : n.storage with
+    | none =>
+      cases k <;>
+        simp [NRT.useFreeID, NRT.finishLearn, hq, ha, hl, NRT.generateNewBijection, hs, imLookup_imSet, NRT.mapping,
+          NRT.callbacks, learnIm]
+    | some st =>
+      have hv := (h.stok st hs).vals
+      cases k <;>
+        simp [NRT.useFreeID, NRT.finishLearn, hq, ha, hl, NRT.generateNewBijection, hs, imLookup_imSet, NRT.mapping,
+          NRT.callbacks, learnIm, hv]
+  | some im =>
+    right
+    obtain ⟨st, hs⟩ := h.storage_some hl
+    have hsel := h.q_unbound a k im (by rw [hq]; exact List.mem_cons_self) hl
+    refine ⟨im, st, rfl, hs, ?_⟩
+    cases k <;> simp_all [NRT.useFreeID, NRT.finishLearn, sel, Storage.clone, learnIm]
+
+theorem sel_learnIm (k : Bool) (im : Imap) (id : Nat) :
+    sel k (learnIm k im id) = some id ∧ sel (!k) (learnIm k im id) = sel (!k) im ∧
+    (learnIm k im id).slot = im.slot := by
+  cases k <;> simp [sel, learnIm]
+
+/-- `useFreeID` with a queued address and a controller that is not bound yet: the
+    controller is bound to the OLDEST queued address; one mapping entry is appended. -/
+theorem useFreeID_ok {P n a k q} (id : Nat) (h : NrtOk P n) (hq : n.learnQ = (a, k) :: q)
+    (hid : id ∉ ids n.mapping) :
+    ∃ n' ns slot cb p extra, NRT.useFreeID P n id = some (n', [.bind ns (some id)]) ∧ NrtOk P n' ∧
+      n'.storage = some ns ∧ n'.learnQ = q ∧ ns.mapping = n.mapping ++ [⟨id, k, slot⟩] ∧
+      ns.callbacks = n.callbacks ++ extra ∧ ns.callbacks[slot]? = some cb ∧ cb.addr = a ∧
+      ns.values.length = ns.callbacks.length ∧
+      P[a]? = some p ∧ (∀ c ∈ extra, c = ⟨a, p.isInt, p.min8, p.max8⟩) ∧
+      (∃ im', imLookup n'.invMap a = some im' ∧ sel k im' = some id) ∧
+      (∀ b, b ≠ a → imLookup n'.invMap b = imLookup n.invMap b) := by
+  obtain ⟨p, hp, hcase⟩ := useFreeID_eq id h hq
+  rcases hcase with ⟨hl, heq⟩ | ⟨im, st, hl, hs, heq⟩
+  · let im0 : Imap := ⟨n.callbacks.length, none, none⟩
+    have hsl := sel_learnIm k im0 id
+    refine ⟨_, _, n.callbacks.length, ⟨a, p.isInt, p.min8, p.max8⟩, p, [⟨a, p.isInt, p.min8, p.max8⟩],
+      heq, ?_, rfl, rfl, rfl, rfl, by simp, rfl, by simp, hp, by simp, ?_, ?_⟩
+    · refine nrtOk_learn (extra := [⟨a, p.isInt, p.min8, p.max8⟩]) (im' := learnIm k im0 id)
+        (cb0 := ⟨a, p.isInt, p.min8, p.max8⟩) h hq hid rfl (by simp) rfl (by simp) ?_ ?_ hsl.2.2 hsl.1 ?_ ?_
+      · intro b hb; simp [imLookup_imSet, hb]
+      · simp [imLookup_imSet, im0]
+      · intro im him; rw [hl] at him; cases him
+      · intro _; rw [hsl.2.1]; cases k <;> simp [sel, im0]
+    · exact ⟨learnIm k im0 id, by simp [imLookup_imSet, im0], hsl.1⟩
+    · intro b hb; simp [imLookup_imSet, hb]
+  · have hsl := sel_learnIm k im id
+    have hmp : n.mapping = st.mapping := by simp [NRT.mapping, hs]
+    have hcbs : n.callbacks = st.callbacks := by simp [NRT.callbacks, hs]
+    obtain ⟨cb, hcb, hcba⟩ := h.inv_slot a im hl
+    rw [hcbs] at hcb
+    refine ⟨_, _, im.slot, cb, p, [], heq, ?_, rfl, rfl, by rw [hmp], by simp [hcbs], hcb, hcba,
+      by simp [(h.stok st hs).vals], hp, by simp, ?_, ?_⟩
+    · rw [← hmp]
+      refine nrtOk_learn (extra := []) (im' := learnIm k im id) (cb0 := cb) h hq hid
+        (by simp [hcbs]) hcb hcba (by simp [(h.stok st hs).vals]) ?_ ?_ hsl.2.2 hsl.1 ?_ ?_
+      · intro b hb; simp [imLookup_imSet, hb]
+      · simp [imLookup_imSet]
+      · intro im2 him; rw [hl] at him; cases him; exact ⟨hsl.2.1, rfl⟩
+      · intro hn; rw [hl] at hn; cases hn
+    · exact ⟨learnIm k im id, by simp [imLookup_imSet], hsl.1⟩
+    · intro b hb; simp [imLookup_imSet, hb]
+
+/-- `unMap` never crashes on a consistent state, keeps it consistent, leaves the learn
+    queue and every other address alone and removes at most the one mapping entry of the
+    controller bound to `(a,k)`. -/
+theorem unMap_ok {P n} (h : NrtOk P n) (a : Nat) (k : Bool) :
+    ∃ n' ms, n.unMap a k = some (n', ms) ∧ NrtOk P n' ∧ n'.learnQ = n.learnQ ∧
+      n'.callbacks = n.callbacks ∧
+      (∀ im', imLookup n'.invMap a = some im' → sel k im' = none) ∧
+      (∀ b, b ≠ a → imLookup n'.invMap b = imLookup n.invMap b) ∧
+      ((ms = [] ∧ n'.storage = n.storage) ∨
+        ∃ c st ns im, n.storage = some st ∧ c ∈ ids st.mapping ∧
+          imLookup n.invMap a = some im ∧ sel k im = some c ∧
+          ns = ⟨st.mapping.filter (fun e => e.id != c), st.callbacks,
+                List.replicate st.values.length 0⟩ ∧
+          n'.storage = some ns ∧ ms = [.bind ns none]) := by
+  rcases unMap_eq h a k with ⟨hl, heq⟩ | ⟨im, hl, hs, heq⟩ | ⟨im, c, st, hl, hs, hst, hc, heq⟩
+  · refine ⟨n, [], heq, h, rfl, rfl, ?_, fun _ _ => rfl, Or.inl ⟨rfl, rfl⟩⟩
+    intro im' h'; rw [hl] at h'; cases h'
+  · have hu := invUpd_step n.invMap a k im hl
+    refine ⟨_, _, heq, nrtOk_unmap_nokill h hl hs hu, rfl, rfl, ?_, hu.other, Or.inl ⟨rfl, rfl⟩⟩
+    intro im' h'; obtain ⟨_, _, _, hk, _⟩ := hu.same im' h'; exact hk
+  · have hu := invUpd_step n.invMap a k im hl
+    refine ⟨_, _, heq, nrtOk_unmap_kill h hl hs hst hu, rfl, by simp [NRT.callbacks, hst], ?_, hu.other,
+      Or.inr ⟨c, st, _, im, hst, hc, hl, hs, rfl, rfl, rfl⟩⟩
+    intro im' h'; obtain ⟨_, _, _, hk, _⟩ := hu.same im' h'; exact hk
+
+/-- `map`: a no-op when `(a,k)` is already queued; otherwise `unMap` followed by queueing
+    and one `midi-add-watch`. -/
+theorem map_ok {P : List PortSpec} {n} (h : NrtOk P n) (a : Nat) (k : Bool) (ha : a < P.length) :
+    ((a, k) ∈ n.learnQ ∧ n.map a k = some (n, [])) ∨
+    ((a, k) ∉ n.learnQ ∧ ∃ n1 ms, n.unMap a k = some (n1, ms) ∧
+      n.map a k = some ({ n1 with learnQ := n.learnQ ++ [(a, k)] }, ms ++ [.addWatch]) ∧
+      NrtOk P { n1 with learnQ := n.learnQ ++ [(a, k)] }) := by
+  by_cases hm : (a, k) ∈ n.learnQ
+  · left
+    refine ⟨hm, ?_⟩
+    have : n.learnQ.any (fun x => x.1 == a && x.2 == k) = true := by
+      simp only [List.any_eq_true]; exact ⟨(a, k), hm, by simp⟩
+    simp [NRT.map, this]
+  · right
+    refine ⟨hm, ?_⟩
+    have : n.learnQ.any (fun x => x.1 == a && x.2 == k) = false := by
+      simp only [List.any_eq_false]
+      intro x hx hh; simp at hh
+      apply hm; obtain ⟨h1, h2⟩ := hh; cases x; simp_all
+    obtain ⟨n1, ms, heq, hok, hq, hcb, hsel, hoth, _⟩ := unMap_ok h a k
+    refine ⟨n1, ms, heq, by simp [NRT.map, this, heq, hq], ?_⟩
+    constructor
+    · exact hok.st_none
+    · exact hok.stok
+    · exact hok.inv_slot
+    · exact hok.inv_sel
+    · exact hok.map_inv
+    · simp only; rw [List.nodup_append]
+      refine ⟨h.q_nodup, by simp, ?_⟩
+      intro x hx y hy; simp at hy; subst hy; intro hxy; subst hxy; exact hm hx
+    · intro b k' im hb hl
+      simp only [List.mem_append, List.mem_singleton, Prod.mk.injEq] at hb
+      rcases hb with hb | ⟨rfl, rfl⟩
+      · exact hok.q_unbound b k' im (by rw [hq]; exact hb) hl
+      · exact hsel im hl
+    · intro b k' hb
+      simp only [List.mem_append, List.mem_singleton, Prod.mk.injEq] at hb
+      rcases hb with hb | ⟨rfl, rfl⟩
+      · exact h.q_ports b k' hb
+      · exact ha
+
 end Rtosc.Midi
